@@ -116,6 +116,25 @@ class Gen:
                 cls = oracles.classify(self.c(), line, self.w)
             except Exception:
                 cls = 'other'
+            if cls == 'ooc' and getattr(self, 'force', False):
+                # a request outside every contract that the library nevertheless accepts (faces that
+                # are not the facets of one vertex set): issued on purpose, so that the *following*
+                # requests meet such a simplex; no property is checked on this request itself
+                self.force = False
+                self.stats['accepted_out_of_contract'] = self.stats.get('accepted_out_of_contract', 0) + 1
+                o = self.emit(line)
+                if o and o[0].startswith('ok'):
+                    # ... and straight away the same faces again (other order, other name): a
+                    # documented-invalid request whatever the simplex looks like
+                    T = line.split(); fs = T[3:T.index(']')]; self.rnd.shuffle(fs)
+                    free = [x for x in self.pool if x not in self.c()]
+                    nm = tok(free[0]) if free else '-'
+                    if not (self.twin and nm == '-'):
+                        dup = 'add %s [ %s ] %s -' % (self.var, ' '.join(fs), nm)
+                        self.stats['class_invalid'] = self.stats.get('class_invalid', 0) + 1
+                        return self.emit(dup)
+                return o
+            self.force = False
             if cls == 'ooc':
                 self.stats['redrawn_out_of_contract'] = self.stats.get('redrawn_out_of_contract', 0) + 1
                 continue
@@ -166,6 +185,24 @@ class Gen:
                 bs = [self.some_simplex() if rnd.random() < 0.7 else rnd.choice(self.pool) for _ in range(m)]
                 n = rnd.choice([None] + self.pool)
             return 'addb %s %s %s %s' % (v, list_s(bs), optname_tok(n), attr_tok(rnd, self.w))
+        if op == 'weird':
+            # k+1 distinct (k-1)-simplices that do NOT bound a k-simplex (an open path of edges, ...)
+            k = 2
+            es = [e for e in (c.simplicesOfOrder(1) if c.maxOrder() >= 1 else []) if not (self.twin and _is_auto(e))]
+            if len(es) < 3:
+                return None
+            for _ in range(6):
+                fs = rnd.sample(es, 3)
+                pts_ = set()
+                for e in fs:
+                    pts_ |= set(map(tok, c.basisOf(e)))
+                if len(pts_) > 3:
+                    n = rnd.choice([x for x in self.pool if x not in c][:3] or [None])
+                    if n is None and self.twin:
+                        return None
+                    self.force = True
+                    return 'add %s %s %s -' % (v, list_s(fs), optname_tok(n))
+            return None
         if op == 'dupfaces':
             hi = [s for s in c.simplices() if c.orderOf(s) >= 1]
             if self.twin:
